@@ -26,10 +26,11 @@ TOL = 1e-8
 
 
 def units(tier):
-    q = [("cscl", "211", 1), ("cscl", "311", 1), ("tric2", "211", 1), ("sc1", "222", 1), ("bccI", "111", 1),
-         ("tric2", "111", 1), ("cscl", "211", 2), ("fccF", "111", 1), ("tric2", "nd4", 1), ("sc1", "221", 1)]
+    q = [("cscl", "211", 1), ("cscl", "311", 1), ("tric2", "211", 1), ("bccI", "111", 1),
+         ("tric2", "111", 1), ("cscl", "211", 2), ("fccF", "111", 1), ("tric2", "nd4", 1), ("sc1", "221", 1),
+         ("hex2", "111", 1), ("hex2", "211", 1), ("tet2", "111", 1), ("mono2", "111", 1)]
     if tier == "thorough":
-        q += [("tric2", "311", 1), ("tric2", "221", 1), ("cscl", "221", 1), ("tric2", "211", 3), ("cscl", "311", 2),
+        q += [("sc1", "222", 1), ("tric2", "311", 1), ("tric2", "221", 1), ("cscl", "221", 1), ("tric2", "211", 3), ("cscl", "311", 2),
               ("tet2", "211", 1), ("tet2", "nd1", 1), ("bccI", "211", 1), ("fccF", "211", 1), ("hex2", "211", 1),
               ("inter4", "111", 1), ("inter4", "121", 1), ("sc1", "nd2", 1), ("sc1", "nd3", 1), ("sc1", "411", 1),
               ("tric2", "411", 1), ("mono2", "nd1", 1), ("nacl8", "111", 1)]
@@ -134,9 +135,9 @@ def run_unit(u):
                     S.append(z3.Sum([Ft[i, j, a, b] if isinstance(Ft[i, j, a, b], z3.ExprRef) else z3.RealVal(Ft[i, j, a, b]) for j in range(n)]) == 0)
         vv, _ = solve(res, "symmetric_input_assumptions_satisfiable", A + S + [z3.Or([x > Fraction(1, 2) for x in xs[:9 * n_s]])], record=False)
         res.twins.append({"name": "symmetric-input assumption set is satisfiable with a non-zero array", "verdict": vv})
-        v, model, idx = assert_equal(res, "symmetric_unchanged_compact", symnp.unwrap(Yc), xs, A + S, tol=TOL)
+        v, model, idx = assert_equal(res, "symmetric_unchanged_compact", symnp.unwrap(Yc), xs, A + S, tol=TOL, chunk=100000)
         _verdict(res, u, "symmetric_unchanged_compact", v, model, idx, xs, ph, maps, level, sym_input=True)
-        v, model, idx = assert_equal(res, "symmetric_unchanged_full", symnp.unwrap(Yf), symnp.unwrap(F), A + S, tol=TOL)
+        v, model, idx = assert_equal(res, "symmetric_unchanged_full", symnp.unwrap(Yf), symnp.unwrap(F), A + S, tol=TOL, chunk=100000)
         _verdict(res, u, "symmetric_unchanged_full", v, model, idx, xs, ph, maps, level, sym_input=True)
         # ---------------- D: idempotence (second application changes nothing more)
         Yc2, kr3 = sym_compact(ctx, np.array(Yc, dtype=object), maps, level)
@@ -177,8 +178,12 @@ def run_unit(u):
                     lhs.append(sum(Fp[:, i, a, b]))
         v, model, idx = assert_equal(res, "python_fallback_sum_rules", symnp.unwrap(symnp.symarray(lhs)), [0.0] * len(lhs), A, tol=TOL)
         _verdict(res, u, "python_fallback_sum_rules", v, model, idx, xs, ph, maps, level, replay=False)
-        # ---------------- H: space-group symmetriser (Python): invariant input unchanged; idempotent
+        # ---------------- H: space-group symmetriser (Python) == independent space-group average (harness oracle)
         if n_s <= 4:
+            from checks.dmcommon import DMCase, space_group_ops, sg_average, selftest_projector
+            case = DMCase.__new__(DMCase); case.ph = ph; case.scell = ph.supercell; case.n_s = n_s
+            ops = space_group_ops(case)
+            selftest_projector(case, ops)
             sym = ph.symmetry
             lat = np.array(ph.supercell.cell.T, dtype="double", order="C")
             pos = ph.supercell.scaled_positions
@@ -187,8 +192,12 @@ def run_unit(u):
             with symnp.session():
                 P1 = Y.copy(); fcm.set_tensor_symmetry_PJ(P1, lat, pos, sym)
                 P2 = P1.copy(); fcm.set_tensor_symmetry_PJ(P2, lat, pos, sym)
+            Po = sg_average(case, Y, ops)
+            v, model, idx = assert_equal(res, "PJ_equals_space_group_average", symnp.unwrap(P1), symnp.unwrap(Po), box(ys), tol=1e-7)
+            _verdict(res, u, "PJ_equals_space_group_average", v, model, idx, ys, ph, maps, level)
             v, model, idx = assert_equal(res, "PJ_idempotent", symnp.unwrap(P2), symnp.unwrap(P1), box(ys), tol=1e-7)
-            _verdict(res, u, "PJ_idempotent", v, model, idx, ys, ph, maps, level, replay=False)
+            _verdict(res, u, "PJ_idempotent", v, model, idx, ys, ph, maps, level)
+            res.stat("space_group_ops", len(ops))
         res.samples.append({"unit": res.unit, "n_satom": n_s, "n_patom": n_p, "variables": len(xs),
                             "assertion": "exists x in [-1,1]^%d: |sym_compact(x) - sym_full(expand(x))[p2s]|_inf > %g" % (len(xs), TOL),
                             "verdict": res.queries[0]["verdict"] if res.queries else None})
@@ -222,8 +231,9 @@ def replay_concrete(sub, x, ph, maps, level):
     import phonopy.harmonic.force_constants as fcm
     prim, perms, s2pp, p2s, nsym = maps
     n_s, n_p = len(ph.supercell), len(prim)
-    X = np.array(x, dtype="double").reshape(n_p, n_s, 3, 3)
-    F = fcm.compact_fc_to_full_fc(prim, X.copy())
+    if not sub.startswith("PJ"):
+        X = np.array(x, dtype="double").reshape(n_p, n_s, 3, 3)
+        F = fcm.compact_fc_to_full_fc(prim, X.copy())
 
     def symc(a):
         a = np.array(a, dtype="double", order="C"); phonoc.perm_trans_symmetrize_compact_fc(a, perms, s2pp, p2s, nsym, level); return a
@@ -255,6 +265,17 @@ def replay_concrete(sub, x, ph, maps, level):
         d = tr(tr(X)) - X
     elif sub == "full_compact_full_identity":
         d = fcm.compact_fc_to_full_fc(prim, fcm.full_fc_to_compact_fc(prim, F)) - F
+    elif sub in ("PJ_equals_space_group_average", "PJ_idempotent"):
+        from checks.dmcommon import DMCase, space_group_ops, sg_average
+        case = DMCase.__new__(DMCase); case.ph = ph; case.scell = ph.supercell; case.n_s = n_s
+        Y = np.array(x, dtype="double").reshape(n_s, n_s, 3, 3)
+        lat = np.array(ph.supercell.cell.T, dtype="double", order="C")
+        P1 = Y.copy(); fcm.set_tensor_symmetry_PJ(P1, lat, ph.supercell.scaled_positions, ph.symmetry)
+        if sub == "PJ_idempotent":
+            P2 = P1.copy(); fcm.set_tensor_symmetry_PJ(P2, lat, ph.supercell.scaled_positions, ph.symmetry); d = P2 - P1
+        else:
+            d = P1 - np.array(sg_average(case, Y.astype(object), space_group_ops(case)), dtype=float)
+        return float(np.abs(d).max()) > 1e-7, float(np.abs(d).max())
     else:
         raise HarnessError("no replay for " + sub)
     mag = float(np.abs(d).max())
